@@ -208,8 +208,9 @@ def initiator_cas(body, ev, facts):
 
 def rule_z5(ctx, facts):
     tr = facts.body("map::HashMap::transfer")
-    for name in ("map::HashMap::add_count", "map::HashMap::try_presize", "map::HashMap::help_transfer"):
-        b = facts.body(name)
+    for b in facts.bodies:
+        if b.id == tr.id or not size_ctl_cas(b):
+            continue
         ev = evaluator(b)
         tickets = [(c, "helper sc+1") for c, _ in helper_cas(b, ev)] + [(c, "initiator rs+2") for c in initiator_cas(b, ev, facts)]
         for c, kind in tickets:
@@ -253,52 +254,53 @@ def rule_z6(ctx, facts):
     MAXR = facts.const("MAX_RESIZERS")
     SHIFT = facts.const("RESIZE_STAMP_SHIFT")
     found = {}
-    for name in ("map::HashMap::help_transfer", "map::HashMap::add_count"):
-        b = facts.body(name)
+    tr_id = facts.body("map::HashMap::transfer").id
+    joiners = [b for b in facts.bodies if b.id != tr_id and helper_cas(b, evaluator(b))]
+    if len(joiners) < 2:
+        ctx.fail_closed("Z6: expected the two joining sites (help_transfer, add_count), found %d" % len(joiners))
+    for b in joiners:
         ev = evaluator(b)
-        hs = helper_cas(b, ev)
-        if len(hs) != 1:
-            ctx.inst("Z6", b, "joining CAS", b.span, False, "expected one helper CAS sc -> sc+1, found %d" % len(hs))
-            continue
-        cas, sc = hs[0]
-        atoms = {"sign": False, "max_resizers": False, "plus_one": False, "transfer_index": False}
 
-        def is_rs(f, extra):
+        def is_rs(f, extra, b=b):
             return f is not TOP and f.c == extra and len(f.symbols()) == 1 and all(
                 s[0] == "call" and callee_str(b.call_at(s[1])).endswith("resize_stamp") and v == Fraction(2) ** SHIFT for s, v in f.terms.items())
-        for blk in range(len(b.blocks)):
-            cd = cond_of(b, blk)
-            if not cd or cd["kind"] != "cmp":
-                continue
-            a, bb = ev.operand(cd["a"]), ev.operand(cd["b"])
-            if a is TOP or bb is TOP:
-                continue
-            T, F = (blk, cd["true"]), (blk, cd["false"])
-            op = cd["op"]
-            if a == sc and bb.is_const() and bb.c == 0:
-                if op == "Ge" and dominated_by_edge(b, cas.point, [F]):
-                    atoms["sign"] = True
-                if op == "Lt" and dominated_by_edge(b, cas.point, [T]):
-                    atoms["sign"] = True
-            if op == "Eq" and a == sc and is_rs(bb, MAXR) and dominated_by_edge(b, cas.point, [F]):
-                atoms["max_resizers"] = True
-            if op == "Eq" and a == sc and is_rs(bb, 1) and dominated_by_edge(b, cas.point, [F]):
-                atoms["plus_one"] = True
-            if op == "Le" and bb.is_const() and bb.c == 0 and len(a.symbols()) == 1:
-                s = next(iter(a.symbols()))
-                lc = b.call_at(s[1]) if s[0] == "call" else None
-                if lc is not None and is_std_atomic(lc) == "load" and ("map::HashMap", "transfer_index") in receiver_field(b, lc, 0) \
-                        and dominated_by_edge(b, cas.point, [F]):
-                    atoms["transfer_index"] = True
-        found[name] = atoms
-        miss = [k for k, v in atoms.items() if not v]
-        ctx.inst("Z6", b, "refusals before joining", cas.span, not miss,
-                 "sign of sc, sc == rs + MAX_RESIZERS, sc == rs + 1, transfer_index <= 0 all dominate the joining CAS on their refusing edge" if not miss else
-                 "the joining CAS sc -> sc+1 is not guarded by: %s (its sibling %s)" % (", ".join(miss), "is" if True else ""))
-    if len(found) == 2:
-        a, b2 = found.values()
-        ctx.inst("Z6", "map::HashMap::help_transfer", "sibling agreement", "src/map.rs", a == b2,
-                 "help_transfer and add_count agree on the joining rules" if a == b2 else "the two joining rules differ: %s" % found)
+        for cas, sc in helper_cas(b, ev):
+            atoms = {"sign": False, "max_resizers": False, "plus_one": False, "transfer_index": False}
+            for blk in range(len(b.blocks)):
+                cd = cond_of(b, blk)
+                if not cd or cd["kind"] != "cmp":
+                    continue
+                a, bb = ev.operand(cd["a"]), ev.operand(cd["b"])
+                if a is TOP or bb is TOP:
+                    continue
+                T, F = (blk, cd["true"]), (blk, cd["false"])
+                op = cd["op"]
+                if a == sc and bb.is_const() and bb.c == 0:
+                    if op == "Ge" and dominated_by_edge(b, cas.point, [F]):
+                        atoms["sign"] = True
+                    if op == "Lt" and dominated_by_edge(b, cas.point, [T]):
+                        atoms["sign"] = True
+                if op == "Eq" and a == sc and is_rs(bb, MAXR) and dominated_by_edge(b, cas.point, [F]):
+                    atoms["max_resizers"] = True
+                if op == "Eq" and a == sc and is_rs(bb, 1) and dominated_by_edge(b, cas.point, [F]):
+                    atoms["plus_one"] = True
+                if op == "Le" and bb.is_const() and bb.c == 0 and len(a.symbols()) == 1:
+                    s0 = next(iter(a.symbols()))
+                    lc = b.call_at(s0[1]) if s0[0] == "call" else None
+                    if lc is not None and is_std_atomic(lc) == "load" and ("map::HashMap", "transfer_index") in receiver_field(b, lc, 0) \
+                            and dominated_by_edge(b, cas.point, [F]):
+                        atoms["transfer_index"] = True
+            found[b.id + "@" + cas.span] = atoms
+            miss = [k for k, v in atoms.items() if not v]
+            ctx.inst("Z6", b, "refusals before joining", cas.span, not miss,
+                     "sign of sc, sc == rs + MAX_RESIZERS, sc == rs + 1, transfer_index <= 0 (rs = resize_stamp(len) << SHIFT) all dominate the joining CAS "
+                     "on their refusing edge" if not miss else
+                     "the joining CAS sc -> sc+1 is not guarded by: %s (with rs = resize_stamp(len) << RESIZE_STAMP_SHIFT): a thread can join a resize that "
+                     "is full or already being committed" % ", ".join(miss))
+    vals = list(found.values())
+    same = bool(vals) and all(v == vals[0] for v in vals)
+    ctx.inst("Z6", "map::HashMap::help_transfer", "sibling agreement", "src/map.rs", same and len(vals) >= 2,
+             "all %d joining sites agree on the refusals" % len(vals) if same else "the joining rules differ between sites: %s" % {strip_generics(k): v for k, v in found.items()})
 
 
 def run(ctx, facts):
